@@ -236,6 +236,20 @@ Theorem C06_lanczos_root_full_rank (A Qn T V : 'M[F]_n) (e : 'rV[F]_n) (jit : F)
   let R := (Qn *m V) *m diag_mx (\row_j Num.sqrt (e 0 j)) in R *m R^T = A + jit%:M.
 Proof. by apply: lanczos_root_full_rank. Qed.
 
+(* the DOCUMENTED jitter: settings.tridiagonal_jitter times the smallest diagonal entry m of T (relative, per batch member).
+   harness/c06_tr.py checks on every run that RootDecomposition.forward / Diagonalization.forward build their jitter in this
+   form (gen/SrcFlags.v: src_lanczos_jitter_relative) - the functions themselves are oracles of the model *)
+Theorem C06_lanczos_root_relative_jitter k (Qk : 'M[F]_(n, k)) (T V : 'M[F]_k) (e : 'rV[F]_k) (tj m : F) :
+  V^T *m V = 1%:M -> V *m diag_mx e *m V^T = T + (tj * m)%:M -> (forall j, 0 <= e 0 j) ->
+  let R := (Qk *m V) *m diag_mx (\row_j Num.sqrt (e 0 j)) in R *m R^T = Qk *m (T + (tj * m)%:M) *m Qk^T.
+Proof. by apply: lanczos_root_is_compression. Qed.
+
+Theorem C06_lanczos_root_relative_jitter_full_rank (A Qn T V : 'M[F]_n) (e : 'rV[F]_n) (tj m : F) :
+  Qn^T *m Qn = 1%:M -> Qn^T *m A *m Qn = T ->
+  V^T *m V = 1%:M -> V *m diag_mx e *m V^T = T + (tj * m)%:M -> (forall j, 0 <= e 0 j) ->
+  let R := (Qn *m V) *m diag_mx (\row_j Num.sqrt (e 0 j)) in R *m R^T = A + (tj * m)%:M.
+Proof. by apply: lanczos_root_full_rank. Qed.
+
 Theorem C06_root_inv_pinverse_valid (A R Rp : 'M[F]_n) :
   R *m R^T = A -> Rp *m R = 1%:M -> A *m (Rp^T *m Rp^T^T) = 1%:M.
 Proof. by apply: root_inv_pinverse_valid. Qed.
